@@ -201,3 +201,14 @@ def run(ctx):
             k = seen.get(m, 0) + 1
             seen[m] = k
             reader_identity(ctx, 'C06.6-reader-identity', B, bb, t, m, '%s:%s%s' % (B.path, m, '' if k == 1 else '#%d' % k))
+
+    # ---------------- dependencies outside connection.rs -----------------------------------------------------------------
+    # "every later frame is still delivered intact" with an atom cache: what one message adds to the cache must be there for the next
+    from .c14 import cache_threading
+    cache_threading(ctx, 'C06.7-cache-kept-across-frames')
+    # "control message ... equal to what the peer sent": the tuple -> ControlMessage table used on the receive path
+    ctx.rule('C06.8-control-parse-table', 'the receive path turns the control tuple into a ControlMessage with ControlMessage::from_term / ControlMessageType::try_from: '
+             'per tag the arity and the field positions are the protocol\'s (rules C08.1-tryfrom and C08.2-* re-run here)', floor=90)
+    from ..order import SubCtx
+    from . import c08
+    c08.run(SubCtx(ctx, 'C06.8-control-parse-table', 'control', allow=('C08.1-tryfrom', 'C08.2-')))
